@@ -148,6 +148,24 @@ def check_read(pck, pf, fsel, lv, bsel, fails, counter, via="getitem", stream=No
             return
 
 
+def run_stream_sel(p, wd):
+    """replay of a box selection found by the solver: n boxes in a row spread over two files, one selection, through
+    __getitem__ or the on-demand iterator (under the watchdog)"""
+    from amr_kitchen import PlotfileCooker
+    fails, counter = [], [0]
+    n = int(p["n"])
+    names = ["a", "b"]
+    levels = [[((4 * i, 0, 0), (4 * i + 3, 3, 3)) for i in range(n)]]
+    pf = gen.make_pf(ndims=3, names=names, n0=(4 * n, 4, 4), levels=levels, nfiles=min(2, n), layout="shuffled", seed=p.get("seed", 0))
+    path = os.path.join(wd, "plt")
+    gen.write_plotfile(path, pf)
+    pck = PlotfileCooker(path)
+    b = p["bsel"]
+    bsel = b[1] if b[0] == "int" else (slice(b[1], b[2], b[3]) if b[0] == "slice" else list(b[1:]))
+    check_read(pck, pf, 1, 0, bsel, fails, counter, via=p.get("via", "getitem"))
+    return {"fails": fails, "checks": counter[0]}
+
+
 def run_reader_scenario(p, wd):
     from amr_kitchen import PlotfileCooker
     fails = []
@@ -164,6 +182,8 @@ def run_reader_scenario(p, wd):
         pck = PlotfileCooker(path)
         check_read(pck, pf, fsel_from(p["fsel"]), 0, 0, fails, counter)
         return {"fails": fails, "checks": counter[0]}
+    if p["kind"] == "stream_sel":
+        return run_stream_sel(p, wd)
     nd, nf = p["ndims"], p["nf"]
     names = [f"f{i}" if i % 2 else f"Y(S{i})" for i in range(nf)]
     n0 = tuple(p["n0"]) if p.get("n0") else ((16, 16, 16)[:nd] if nd == 3 else (32, 16))
@@ -231,6 +251,8 @@ def run_iter_scenario(p, wd):
     fails = []
     counter = [0]
     rng = random.Random(p.get("seed", 0))
+    if p["kind"] == "stream_sel":
+        return run_stream_sel(p, wd)
     if p["kind"] == "single_iter":
         nd, nf = p["ndims"], p["nf"]
         shape = tuple(p["box"])
